@@ -30,6 +30,7 @@ type Env struct {
 	depth  int
 	unfold bool // expand the outermost opaque function application (reveal)
 	hyp    bool // the clause is being assumed (quantified bodies may carry typing facts)
+	bound  map[string]bool // quantifier-bound names shadow program variables
 }
 
 func specFail(format string, a ...any) { panic(engineError{"spec: " + fmt.Sprintf(format, a...)}) }
@@ -161,6 +162,13 @@ func (env *Env) eval(x *SExpr) SV {
 		var bs []string
 		c.n++
 		suffix := fmt.Sprintf("!%d", c.n)
+		sub.bound = map[string]bool{}
+		for k := range env.bound {
+			sub.bound[k] = true
+		}
+		for _, b := range x.Binders {
+			sub.bound[b] = true
+		}
 		for _, b := range x.Binders {
 			nm := "q_" + b + suffix
 			sub.vars[b] = mathInt(nm)
@@ -175,6 +183,7 @@ func (env *Env) eval(x *SExpr) SV {
 			for _, b := range x.Binders {
 				o.vars[b] = mathInt("q_" + b + suffix)
 			}
+			o.bound = sub.bound
 			sub.oldEnv = &o
 		}
 		c.raw++
@@ -422,6 +431,10 @@ func pathOffset(st *types.Struct, path []int) (int, types.Type) {
 }
 
 func (env *Env) lookup(name string) (SV, bool) {
+	if env.bound[name] {
+		v, ok := env.vars[name]
+		return v, ok
+	}
 	if env.locals {
 		if v, ok := env.x.localByName(env.cur, env.fn, name); ok {
 			return v, true
@@ -702,6 +715,7 @@ func (env *Env) call(x *SExpr) SV {
 		sub.locals = false
 		sub.unfold = false
 		sub.vars = map[string]SV{}
+		sub.bound = nil
 		for i, pn := range pf.Params {
 			sub.vars[pn] = arg(i)
 		}
